@@ -588,7 +588,7 @@ func allOps() []string {
 	return ops
 }
 
-var c01Switches = []string{"fallthrough-default-not-last", "label-in-case-clause", "shadow-loopvar", "invalid-utf8", "keyed-lit-compare-in-logic", "shift-count-deep-const"}
+var c01Switches = []string{"fallthrough-default-not-last", "label-in-case-clause", "shadow-loopvar", "invalid-utf8", "keyed-lit-compare-in-logic", "shift-count-deep-const", "delete-big-uint-const"}
 
 func config() *progen.Config {
 	cfg := progen.DefaultConfig()
